@@ -47,6 +47,8 @@ impl Reader {
     pub fn unchecked_read(&self, offset: usize, len: usize) -> &[u8] {
         let start = self.start() + offset;
         let end = start + len;
+        #[cfg(anydb_verif)]
+        crate::verif_tap::emit(crate::verif_tap::Event::Access { region_start: self.start, region_len: self.len, offset, len });
         &self.mmap[start..end]
     }
 
@@ -81,6 +83,8 @@ impl Reader {
     pub fn prefixed(&self, offset: usize) -> &[u8] {
         assert!(offset <= self.len());
         let start = self.start() + offset;
+        #[cfg(anydb_verif)]
+        crate::verif_tap::emit(crate::verif_tap::Event::Access { region_start: self.start, region_len: self.len, offset, len: usize::MAX });
         &self.mmap[start..]
     }
 }
